@@ -111,6 +111,25 @@ def scenario(B, G, n, h, a, psd=True):
         G.eq("psd_gram_quadratic_form_im", O.im(quad), O.frac(0))
         ys = B.params("y", (2 * A,))
         G.nonneg("psd_sum_of_squares", sum((t * t for t in ys[1:]), ys[0] * ys[0]))
+    # history: the same object re-parameterised in place (written through .data, as users and loaders do), then reinitialised:
+    # trace, normalisation and diagonal follow the new parameters (nothing computed for the old ones is remembered)
+    P2 = {"am": C.load_rbm(B, st.rbm_am, "am'"), "ph": C.load_rbm(B, st.rbm_ph, "ph'", zero=("aux_bias",))}
+    rho2 = B.scalars(st.rho(space, space))
+    prob2 = B.scalars(st.probability(space))
+    Z2 = B.scalars(st.normalization(space)).reshape(-1)[0]
+    tr2 = O.frac(0)
+    for i, v in enumerate(rows):
+        re_ref, _ = C.rho_ref(O, P2["am"], P2["ph"], v, v)
+        G.eq("reparam.diag[%d]" % i, rho2[0, i, i], re_ref)
+        G.eq("reparam.prob[%d]" % i, prob2[i], re_ref)
+        tr2 = tr2 + rho2[0, i, i]
+    if D > 1:
+        re_ref, im_ref = C.rho_ref(O, P2["am"], P2["ph"], rows[0], rows[D - 1])
+        G.eq("reparam.rho_re[0,%d]" % (D - 1), rho2[0, 0, D - 1], re_ref)
+        G.eq("reparam.rho_im[0,%d]" % (D - 1), rho2[1, 0, D - 1], im_ref)
+    G.eq("reparam.trace==Z", tr2, Z2)
+    pz = B.scalars(st.probability(space, st.normalization(space)))
+    G.eq("reparam.normalised_probabilities_sum_to_one", sum(pz[1:], pz[0]), O.frac(1))
     G.twin("twin_drop_aux_bias", rho[0, 0, 0], C.rho_ref(O, dict(P["am"], aux_bias=[O.frac(0)] * a), P["ph"], rows[0], rows[0])[0])
     if D > 1:
         G.twin("twin_conj", rho[1, 0, D - 1], -C.rho_ref(O, P["am"], P["ph"], rows[0], rows[D - 1])[1])
